@@ -1,7 +1,7 @@
 """C16: announce (spec/Announce.tla, MC_Announce.tla, Trace_Announce.tla; harness/cmd/ann).
 
-Stage 1: TLC exhaustive on MC_Announce (four simulated networks of 3-4 nodes, K = Alpha = 2, every option
-set an initial state, all reply orders, Close / StopTraversing at every point, consumer reading or giving up:
+Stage 1: TLC exhaustive on MC_Announce (four simulated networks of 3-4 nodes, K = Alpha = 2, network and
+option set chosen by the initial state, all reply orders, Close / StopTraversing at every point, consumer reading or giving up:
 safety invariants, StallLive / CloseLive under weak fairness, vacuity guards: the escape announce.go has
 today must violate CloseLive).
 Stage 2-4: harness/cmd/ann plays the network against the real Server.Announce at the PacketConn
@@ -81,22 +81,24 @@ CHECK_DEADLOCK FALSE
 def stage1(tier, v, cov):
     """The design admits no bad state, finishes under weak fairness, and the guards are not vacuous."""
     runs = []  # (name, cfg, expect): expect = None (must be clean) | name of what must be violated
-    nets = ["n1", "n2", "n3", "n4"]
-    # every option set is an initial state (OptId = "all"); Close / StopTraversing at any point; the consumer may stop
-    # reading; announce_peer to the network's annhold nodes ends only by Close
-    for n in nets:
-        runs.append(("safety+CloseLive %s, consumer may stop, escape=ctx" % n,
-                     mc_cfg(n, "all", "TRUE", "TRUE", "TRUE", "TRUE", "FairSpec", "CloseLive"), None))
-    for n in (nets if tier == "thorough" else ["n1", "n3"]):
-        runs.append(("safety %s, consumer may stop, escape=code" % n, mc_cfg(n, "all", "TRUE", "TRUE", "FALSE", "TRUE"), None))
-    # consumer reads: (Stalled or Closed) ~> Finished and Peers closed, with either escape
-    for n, fixed in ([("n1", "TRUE"), ("n1", "FALSE"), ("n4", "FALSE")] if tier == "quick" else [(n, f) for n in nets for f in ("TRUE", "FALSE")]):
-        runs.append(("liveness StallLive+CloseLive %s, reader, escape=%s" % (n, "ctx" if fixed == "TRUE" else "code"),
-                     mc_cfg(n, "port", "FALSE", "TRUE", fixed, "FALSE", "FairSpec", "StallLive CloseLive", ""), None))
+    # NetId = "all" / OptId = "all": the network (n1..n4 of the library in MC_Announce) and the option set are chosen by
+    # the initial state, so one TLC run covers their product; Close / StopTraversing at any point; the consumer may stop
+    # reading; announce_peer to a network's annhold nodes ends only by Close
     if tier == "thorough":
-        for n, k, a in (("n1", 1, 2), ("n1", 3, 3), ("n2", 2, 1), ("n4", 1, 3), ("n4", 3, 2)):
-            runs.append(("safety+CloseLive %s K=%d Alpha=%d" % (n, k, a),
-                         mc_cfg(n, "all", "TRUE", "TRUE", "TRUE", "TRUE", "FairSpec", "CloseLive", k=k, alpha=a), None))
+        runs.append(("safety+CloseLive all networks x options, consumer may stop, escape=ctx",
+                     mc_cfg("all", "all", "TRUE", "TRUE", "TRUE", "TRUE", "FairSpec", "CloseLive"), None))
+        for k, a in ((1, 2), (3, 3), (2, 1), (1, 3), (3, 2)):
+            runs.append(("safety+CloseLive all networks x options K=%d Alpha=%d" % (k, a),
+                         mc_cfg("all", "all", "TRUE", "TRUE", "TRUE", "TRUE", "FairSpec", "CloseLive", k=k, alpha=a), None))
+    else:
+        runs.append(("safety all networks x options, consumer may stop, escape=ctx", mc_cfg("all", "all", "TRUE", "TRUE", "TRUE", "TRUE"), None))
+        runs.append(("CloseLive all networks (port), consumer may stop, escape=ctx",
+                     mc_cfg("all", "port", "TRUE", "TRUE", "TRUE", "TRUE", "FairSpec", "CloseLive", ""), None))
+    runs.append(("safety all networks x options, consumer may stop, escape=code", mc_cfg("all", "all", "TRUE", "TRUE", "FALSE", "TRUE"), None))
+    # consumer reads: (Stalled or Closed) ~> Finished and Peers closed, with either escape
+    for fixed in ("TRUE", "FALSE"):
+        runs.append(("liveness StallLive+CloseLive all networks, reader, escape=%s" % ("ctx" if fixed == "TRUE" else "code"),
+                     mc_cfg("all", "all" if tier == "thorough" else "port", "FALSE", "TRUE", fixed, "FALSE", "FairSpec", "StallLive CloseLive", ""), None))
     # vacuity guards
     runs.append(("guard: the code's escape must violate CloseLive", mc_cfg("n4", "port", "TRUE", "TRUE", "FALSE", "TRUE", "FairSpec", "CloseLive", ""), "CloseLive"))
     runs.append(("guard: unanswered announce_peer, no Close: violates StallLive", mc_cfg("n4", "port", "FALSE", "FALSE", "TRUE", "TRUE", "FairSpec", "StallLive", ""), "StallLive"))
@@ -104,7 +106,7 @@ def stage1(tier, v, cov):
 
     def one(run):
         name, cfg, expect = run
-        return run, vlib.tlc("MC_Announce", cfg, workers=2, timeout=900)
+        return run, vlib.tlc("MC_Announce", cfg, workers=4, timeout=1200)
 
     t0 = time.time()
     with ThreadPoolExecutor(max_workers=max(2, vlib.NCPU // 2)) as ex:
@@ -278,7 +280,7 @@ def run(prop, tier, seed, replay=None):
     elif tier == "quick":
         jobs = [(str(seed * 100 + i), ["-seed", seed * 100 + i, "-exh", 1, "-maxexh", 150, "-n", 40]) for i in range(6)]
     else:
-        jobs = [(str(seed * 100 + i), ["-seed", seed * 100 + i, "-exh", 5, "-maxexh", 400, "-n", 2000]) for i in range(12)]
+        jobs = [(str(seed * 100 + i), ["-seed", seed * 100 + i, "-exh", 5, "-maxexh", 400, "-n", 2000]) for i in range(8)]
 
     def one(job):
         tag, args = job
